@@ -47,7 +47,7 @@ func (verifACL) GetContractMethodACL(string, string) (*protos.Acl, error) { retu
 func (verifACL) GetAccountAddresses(string) ([]string, error)             { return nil, nil }
 
 type verifOp struct {
-	kind int // 0 get, 1 put, 2 delete, 3 charge a fee, 4 fail, 5 range scan recorded in k3, 6 nested call
+	kind int // 0 get, 1 put, 2 delete, 3 charge a fee, 4 fail, 5 range scan recorded in k3, 6 nested call, 7 transfer from the contract's address
 	key  string
 }
 
@@ -70,13 +70,15 @@ func verifC09(nops int) {
 	vrt.Assert(s.Play(e.Root.Blockid) == nil, "genesis-plays")
 	// prior state: k1 = "one" written by a confirmed transaction, k2 and k3 never written
 	t0 := vkit.WithKey(vkit.Tx("t0", nil, nil), "c09", "k1", nil, 0, []byte("one"))
-	b1 := vkit.Block(e.Root.Blockid, 1, []*lpb.Transaction{vkit.Coinbase("cb1", "M", []byte{7}), t0})
+	// the contract's address CT holds 4 tokens; A keeps 5 to pay fees with
+	t1 := vkit.Tx("t1", []*protos.TxInput{vkit.In(e.RootTx.Txid, 0, "A", big.NewInt(9))}, []*protos.TxOutput{vkit.Out("CT", big.NewInt(4), 0), vkit.Out("A", big.NewInt(5), 0)})
+	b1 := vkit.Block(e.Root.Blockid, 1, []*lpb.Transaction{vkit.Coinbase("cb1", "M", []byte{7}), t0, t1})
 	vrt.Assert(e.L.ConfirmBlock(b1, false).Succ && s.Play(b1.Blockid) == nil, "prior-state-built")
 
 	// the program
 	ops := make([]verifOp, nops)
 	for i := range ops {
-		ops[i] = verifOp{kind: vrt.Choice("op", 7)}
+		ops[i] = verifOp{kind: vrt.Choice("op", 8)}
 		if ops[i].kind <= 2 {
 			ops[i].key = verifKeys[vrt.Choice("key", len(verifKeys))]
 		}
@@ -113,6 +115,10 @@ func verifC09(nops int) {
 				if err := ctx.Put("c09", []byte("k3"), []byte{'n', byte('0' + n)}); err != nil {
 					return nil, err
 				}
+			case 7: // the contract pays 1 token from its own address to B
+				if err := ctx.Transfer("CT", "B", big.NewInt(1)); err != nil {
+					return nil, err
+				}
 			case 6: // nested call into another kernel contract
 				r, err := ctx.Call("xkernel", "$c09sub", "put", map[string][]byte{"v": v})
 				if err != nil {
@@ -145,9 +151,15 @@ func verifC09(nops int) {
 	reqs := []*protos.InvokeRequest{{ModuleName: "xkernel", ContractName: "$c09", MethodName: "run", Args: map[string][]byte{"v": val}}}
 	before := verifC09Read(s)
 	resp, perr := chain.PreExec(rctx, reqs, "A", nil)
+	// the program fails at an explicit failure, or at a second transfer: the contract's address holds one
+	// output, which the first transfer selects and locks (its change is not spendable inside the same call)
 	fails := false
+	ntr := 0
 	for _, op := range ops {
-		if op.kind == 4 {
+		if op.kind == 7 {
+			ntr++
+		}
+		if op.kind == 4 || ntr > 1 {
 			fails = true
 		}
 	}
@@ -221,19 +233,31 @@ func verifC09(nops int) {
 	vrt.Cover("program-with-scan", ops[0].kind == 5 || ops[len(ops)-1].kind == 5)
 	vrt.Cover("program-with-nested-call", ops[0].kind == 6 || ops[len(ops)-1].kind == 6)
 	// assemble, sign, verify, commit
-	pay := []int64{0, 1, 2, 3, 6}[vrt.Choice("pay", 5)]
+	pay := []int64{0, 1, 2, 3, 5}[vrt.Choice("pay", 5)]
 	tx := &lpb.Transaction{Version: 3, Initiator: "A", Nonce: "n1", Timestamp: 7, Desc: []byte("c09"),
 		ContractRequests: resp.Requests, TxInputsExt: resp.Inputs, TxOutputsExt: resp.Outputs,
-		TxInputs: []*protos.TxInput{vkit.In(e.RootTx.Txid, 0, "A", big.NewInt(9))}}
+		TxInputs: []*protos.TxInput{vkit.In([]byte("t1"), 1, "A", big.NewInt(5))}}
 	if pay > 0 {
 		tx.TxOutputs = append(tx.TxOutputs, vkit.Out("$", big.NewInt(pay), 0))
 	}
-	if pay < 9 {
-		tx.TxOutputs = append(tx.TxOutputs, vkit.Out("A", big.NewInt(9-pay), 0))
+	if pay < 5 {
+		tx.TxOutputs = append(tx.TxOutputs, vkit.Out("A", big.NewInt(5-pay), 0))
 	}
+	// contract-originated transfers: the inputs the sandbox selected and the outputs it produced
+	nOwn := len(tx.TxOutputs)
+	tx.TxInputs = append(tx.TxInputs, resp.UtxoInputs...)
+	tx.TxOutputs = append(tx.TxOutputs, resp.UtxoOutputs...)
+	transfers := 0
+	for _, op := range ops {
+		if op.kind == 7 {
+			transfers++
+		}
+	}
+	vrt.Cover("program-with-transfer", transfers > 0)
+	vrt.Assert((len(resp.UtxoOutputs) > 0) == (transfers > 0), "pre-execution-reports-contract-transfers")
 	// a single mutation of the assembled transaction (0: none); id and signature are recomputed so
 	// that only the read / write-set logic can refuse it
-	mut := vrt.Choice("mutation", 7)
+	mut := vrt.Choice("mutation", 9)
 	applicable := true
 	switch mut {
 	case 1: // a declared write carries another value
@@ -266,6 +290,22 @@ func verifC09(nops int) {
 			r.ResourceLimits = []*protos.ResourceLimit{{Type: protos.ResourceType_XFEE, Limit: used - 1}}
 			tx.ContractRequests = []*protos.InvokeRequest{&r}
 		}
+	case 7: // a token output the contract produced is redirected to the initiator
+		if transfers == 0 {
+			applicable = false
+		} else {
+			o := tx.TxOutputs[nOwn]
+			outs := append([]*protos.TxOutput{}, tx.TxOutputs...)
+			outs[nOwn] = &protos.TxOutput{ToAddr: []byte("A"), Amount: o.Amount, FrozenHeight: o.FrozenHeight}
+			tx.TxOutputs = outs
+		}
+	case 8: // the contract's tokens are spent although the program transfers nothing
+		if transfers != 0 {
+			applicable = false
+		} else {
+			tx.TxInputs = append(append([]*protos.TxInput{}, tx.TxInputs...), vkit.In([]byte("t1"), 0, "CT", big.NewInt(4)))
+			tx.TxOutputs = append(append([]*protos.TxOutput{}, tx.TxOutputs...), vkit.Out("A", big.NewInt(4), 0))
+		}
 	case 6: // another argument than the one pre-executed
 		if !argMatters {
 			applicable = false
@@ -297,6 +337,9 @@ func verifC09(nops int) {
 		for _, k := range verifKeys {
 			vrt.Assert(got[k] == want[k], "committed-state-is-the-pre-executed-write-set")
 		}
+		bCT, _ := s.GetBalance("CT")
+		bB, _ := s.GetBalance("B")
+		vrt.Assert(bCT != nil && bB != nil && bCT.Int64() == 4-int64(transfers) && bB.Int64() == 5+int64(transfers), "committed-balances-reflect-the-contracts-transfers")
 		return
 	}
 	if pay < used {
@@ -307,6 +350,8 @@ func verifC09(nops int) {
 	vrt.Assert(!admitted, "mutated-transaction-is-rejected")
 	if !admitted {
 		verifC09Same(before, verifC09Read(s), "rejected-transaction-changes-nothing")
+		bCT, _ := s.GetBalance("CT")
+		vrt.Assert(bCT != nil && bCT.Int64() == 4, "rejected-transaction-leaves-the-contracts-tokens")
 	}
 }
 
